@@ -355,7 +355,10 @@ def finalizeFilePart (s : State) (now : Nat) : State × Bool :=
 
 /-- `finalize_receive`; returns false when a fault handler stopped the finalisation -/
 def finalizeReceive (s : State) (now : Nat) : State × Bool :=
-  let a := finalizeFilePart { s with delivery := .Complete } now
+  -- the delivery code is Complete only when nothing is missing (an ignored CheckLimitReached
+  -- fault lets an unacknowledged transaction get here with holes)
+  let dc : DeliveryCode := if s.md.isNone || (isFileTransfer s && hasNaks s) then .Incomplete else .Complete
+  let a := finalizeFilePart { s with delivery := dc } now
   if !a.2 then (a.1, false) else
   let b := if a.1.fileStatus == .FileStoreRejection then handleFault a.1 .FileStoreRejection now else (a.1, true)
   if !b.2 then (b.1, false) else
@@ -368,8 +371,8 @@ def finalizeReceive (s : State) (now : Nat) : State × Bool :=
 /-- `check_finished` -/
 def checkFinished (s : State) (now : Nat) : State :=
   if s.recvState == .ReceiveData && s.md.isSome && eofReceived s && !(isFileTransfer s && hasNaks s) then
+    -- (whatever a fault handler did inside `finalize_receive`, the caller carries on)
     let r := finalizeReceive s now
-    if !r.2 then r.1 else
     let s := prepareFinished { r.1 with recvState := .Finished } none
     { s with timer := { s.timer with nak := s.timer.nak.pause now } }
   else s
@@ -448,7 +451,6 @@ def unackEof (s : State) (e : Eof) (now : Nat) : State :=
       else (s, true)
     if !f.2 then f.1 else
     let g := finalizeReceive f.1 now
-    if !g.2 then g.1 else
     let s := g.1
     if closureRequested s then
       prepareFinished { s with recvState := .Finished } (if s.condition == .NoError then none else some s.cfg.dst)
